@@ -62,11 +62,14 @@ async fn run_once(log: &Arc<EventLog>, run: &str, calls: &[CallSpec], steps: u64
             settle().await;
         }
         clock.advance(time::Duration::nanoseconds(step_ns[step as usize]));
+        // the clock moves in jumps: a sleeper wakes at the first clock value at or after its deadline
+        log.emit(json!({"e": "tick", "run": run, "t": (clock.now() - t0).whole_nanoseconds() as i64}));
         settle().await;
     }
     // drain: let everything finish
     for _ in 0..(calls.len() as u64 * 4 + 50) {
         clock.advance(time::Duration::nanoseconds(refresh_ns));
+        log.emit(json!({"e": "tick", "run": run, "t": (clock.now() - t0).whole_nanoseconds() as i64}));
         settle().await;
     }
     for h in handles {
